@@ -114,3 +114,18 @@ def cleanup_lines():
                 out[os.path.relpath(path, root)] = lines
     _cleanup = out
     return out
+
+
+_inventory = None
+
+
+def f5_inventory():
+    "set of (relative file, qualified name) at whose entries fault F5 may be delivered"
+    global _inventory
+    if _inventory is None:
+        import json
+        path = os.path.join(os.path.dirname(os.path.abspath(__file__)), 'f5_inventory.json')
+        with open(path) as fh:
+            data = json.load(fh)
+        _inventory = set((rel, q) for rel, names in data.items() for q in names)
+    return _inventory
